@@ -80,6 +80,20 @@ def step (ps : PS) (tok : String) : Option PS :=
       let trees ← modifyLast ps.trees (fun (h, ns) => (h, ns.push { kind := kind, subtree := st, content := ct }))
       pure { ps with trees := trees }
     else none
+  | ["n", k, st, ct, size, links, inode, dev] => do
+    -- n:<kind>:<subtree>:<content>:<size>:<links>:<inode>:<device>  (file nodes: the metadata `check_trees` must not go by)
+    let kind ← (if k = "f" then some NodeKind.file else if k = "d" then some NodeKind.dir
+      else if k = "o" then some NodeKind.other else none)
+    let st ← optNat st
+    let ct ← parseContent ct
+    let size ← size.toNat?
+    let links ← links.toNat?
+    let inode ← inode.toNat?
+    let dev ← dev.toNat?
+    if ps.ctx ≠ 3 then none else
+    let trees ← modifyLast ps.trees (fun (h, ns) =>
+      (h, ns.push { kind := kind, subtree := st, content := ct, size := size, links := links, inode := inode, device := dev }))
+    pure { ps with trees := trees }
   | "b" :: rest => do
     let b ← parseBlob rest
     if ps.ctx ≠ 1 then none else
